@@ -412,9 +412,11 @@ func c44OneName(t *rapid.T, rec *vh.Recorder, s string, endToEnd bool) {
 		}
 	}
 	// a commit spec made of just this string: NewCommitSpec accepts <=> HEAD in any case, a hash, or a valid branch name
-	_, csErr := doltdb.NewCommitSpec(s)
+	// (strings with '~' or '^' are specs with an ancestor suffix, the business of the specs part;
+	// they are not parsed here: "x~0123456789" makes parseInstructions append 123 million steps)
 	trim := strings.TrimSpace(s)
 	if !strings.ContainsAny(trim, "^~") {
+		_, csErr := doltdb.NewCommitSpec(s)
 		wantSpec := strings.EqualFold(trim, "head") || c44IsHashShaped(trim) || c44BranchOK(trim)
 		if (csErr == nil) != wantSpec {
 			t.Fatalf("doltdb.NewCommitSpec(%q) error = %v, want accepted = %v (rules broken: %v)", s, csErr, wantSpec, c44Violations(trim))
@@ -706,6 +708,6 @@ func TestVerif_C44(t *testing.T) {
 		"specs carry no surrounding whitespace (NewCommitSpec trims, SplitAncestorSpec alone does not)")
 	defer recNames.Write(t)
 	defer recSpecs.Write(t)
-	vh.Check(t, "names", 5000, 4000, func(rt *rapid.T) { c44NamesCase(rt, recNames) })
-	vh.Check(t, "specs", 600, 250, func(rt *rapid.T) { c44SpecsCase(rt, recSpecs) })
+	vh.Check(t, "names", 8000, 6000, func(rt *rapid.T) { c44NamesCase(rt, recNames) })
+	vh.Check(t, "specs", 600, 400, func(rt *rapid.T) { c44SpecsCase(rt, recSpecs) })
 }
